@@ -1049,6 +1049,40 @@ func (e *env) matrix(where string) *hx.Failure {
 			}
 			return hx.Failf("C10/matrix/content-differs", "%s: listing as %s differs from the history of effective writes:\n real: %s\n want: %s", where, who(r), strings.Join(got, " "), strings.Join(want, " "))
 		}
+		if col != 0 {
+			continue
+		}
+		// the same through the index on Author.age (a listing ordered by the indexed field is served from the index, which
+		// holds an entry for every document, null ages included): a refused write must not have touched the index either
+		for r := -1; r < 3; r++ {
+			q := `query { x: Author(order: {age: ASC}) { _docID } }`
+			want := map[string]bool{}
+			for _, row := range rows {
+				id, _ := row["_docID"].(string)
+				if del, _ := row["_deleted"].(bool); !del && byID[id].canRead(r) {
+					want[id] = true
+				}
+			}
+			rr := e.execReal(r, q)
+			if !rr.OK() {
+				return hx.Failf("C10/matrix/index-served-listing-error", "%s: %s as %s failed: %s", where, q, who(r), show(rr))
+			}
+			got := map[string]int{}
+			for _, row := range rr.Rows("x") {
+				id, _ := row["_docID"].(string)
+				got[id]++
+			}
+			for id := range want {
+				if got[id] != 1 {
+					return hx.Failf("C10/matrix/index-served-listing-differs", "%s: %s as %s returns %s %d times; the plain listing and the history of effective writes have it once", where, q, who(r), byID[id], got[id])
+				}
+			}
+			for id := range got {
+				if !want[id] {
+					return hx.Failf("C10/matrix/index-served-listing-differs", "%s: %s as %s returns %s, which is not among the live documents readable by the requester", where, q, who(r), byID[id])
+				}
+			}
+		}
 	}
 	return nil
 }
